@@ -72,7 +72,36 @@ def exhaustive_thr_input(i):
             "metric": metric, "alias": False, "scalar": False, "intdt": False, "rs": rs}
 
 
+def expand_scores(v):
+    """score lists may be given compactly as {"range": n, "off": x}: the n values off, off+1, ..., off+n-1"""
+    if isinstance(v, dict):
+        return [float(v["off"]) + k for k in range(int(v["range"]))]
+    return v
+
+
+def gen_big_input(rng):
+    """a population so large that a RELATIVE tolerance around a boundary target spans several samples (np.isclose(r, 1.0)
+    accepts |r-1| <= 1e-5: more than one sample from N ~ 2e5 on); tie-free integer-valued scores, targets a few samples from
+    either end and off the grid"""
+    n = 2 ** 19
+    metric = rng.choice(gen.METRICS)
+    small = {"range": 8, "off": 0.25}
+    if metric in ("tpr", "fnr"):
+        pos, neg, N = {"range": n, "off": 0.0}, small, n
+    elif metric in ("tnr", "fpr"):
+        pos, neg, N = small, {"range": n, "off": 0.0}, n
+    else:
+        pos, neg, N = {"range": n // 2, "off": 0.0}, {"range": n // 2, "off": 0.5}, n
+    sc, ec = rng.choice(gen.CFGS)
+    ks = [rng.choice([1.5, 2.5, 3.5, 4.25]), rng.choice([2.0, 3.0, 4.0])]
+    rs = sorted(set([k / N for k in ks] + [1 - k / N for k in ks] + [rng.random(), 0.0, 1.0]))
+    return {"stream": "generic", "pos": pos, "neg": neg, "ep": 0, "en": 0, "sc": sc, "ec": ec, "metric": metric,
+            "alias": False, "scalar": rng.random() < 0.5, "intdt": False, "f4dt": False, "rs": rs, "big": N}
+
+
 def gen_thr_input(rng, i, boundary_heavy=False):
+    if i % 200 == 150:
+        return gen_big_input(rng)
     stream = "exact" if i % 2 == 0 else "generic"
     pos, neg = gen.score_sets(rng, stream, nmin=1, allow_empty=False)
     if stream == "generic" and rng.random() < 0.3:
@@ -98,8 +127,13 @@ def gen_thr_input(rng, i, boundary_heavy=False):
         # integer-dtype score arrays (the object then holds int arrays)
         pos, neg = [float(round(x)) for x in pos], [float(round(x)) for x in neg]
         intdt = True
+    f4dt = False
+    if not intdt and stream == "generic" and rng.random() < 0.12:
+        # float32 score arrays (values exactly representable; comparisons with float64 thresholds are exact in NumPy)
+        pos, neg = [float(np.float32(x)) for x in pos], [float(np.float32(x)) for x in neg]
+        f4dt = True
     inp = {"stream": stream, "pos": pos, "neg": neg, "ep": ep, "en": en, "sc": sc, "ec": ec,
-           "metric": metric, "alias": rng.random() < 0.3, "scalar": rng.random() < 0.3, "intdt": intdt}
+           "metric": metric, "alias": rng.random() < 0.3, "scalar": rng.random() < 0.3, "intdt": intdt, "f4dt": f4dt}
     n_rel = {"tpr": len(pos), "fnr": len(pos), "tnr": len(neg), "fpr": len(neg)}.get(metric, len(pos) + len(neg))
     n_all = {"tpr": len(pos) + ep, "fnr": len(pos) + ep, "tnr": len(neg) + en, "fpr": len(neg) + en}.get(
         metric, len(pos) + len(neg) + ep + en)
@@ -118,9 +152,12 @@ def build_thr(pid: str, inp, clauses) -> Case:
     inp = dict(inp)
     rs = [float(common.unjson_num(x)) for x in inp["rs"]]
     inp["rs"] = rs
-    pos, neg = inp["pos"], inp["neg"]
+    pos, neg = expand_scores(inp["pos"]), expand_scores(inp["neg"])
     if inp.get("intdt"):
         s = Scores(np.array(pos, dtype=int), np.array(neg, dtype=int), nb_easy_pos=inp["ep"],
+                   nb_easy_neg=inp["en"], score_class=inp["sc"], equal_class=inp["ec"])
+    elif inp.get("f4dt"):
+        s = Scores(np.array(pos, dtype=np.float32), np.array(neg, dtype=np.float32), nb_easy_pos=inp["ep"],
                    nb_easy_neg=inp["en"], score_class=inp["sc"], equal_class=inp["ec"])
     else:
         s = Scores(pos, neg, nb_easy_pos=inp["ep"], nb_easy_neg=inp["en"], score_class=inp["sc"],
@@ -130,7 +167,7 @@ def build_thr(pid: str, inp, clauses) -> Case:
     fn = getattr(s, name)
     pre = []
     ex = exact_case(inp)
-    scale = max([abs(x) for x in pos + neg] + [1.0])
+    scale = max([abs(x) for x in pos + neg] + [1.0]) if not inp.get("big") else 1.0  # integer-valued scores: exact
     th = {}
     for meth in gen.METHODS:
         if inp["scalar"]:
@@ -175,6 +212,10 @@ def build_thr(pid: str, inp, clauses) -> Case:
         tags.append("easy")
     if inp.get("intdt"):
         tags.append("int-dtype")
+    if inp.get("f4dt"):
+        tags.append("float32-dtype")
+    if inp.get("big"):
+        tags.append("population>=2**19")
     if len(set(pos)) < len(pos) or len(set(neg)) < len(neg) or set(pos) & set(neg):
         tags.append("ties")
     if any(r <= 0 or r >= 1 for r in rs):
@@ -219,6 +260,16 @@ def build_thr(pid: str, inp, clauses) -> Case:
 
 
 def shrink_thr(inp):
+    if inp.get("big"):
+        # compact populations: halve the ranges (the failure may need the size), then drop targets
+        for key in ("pos", "neg"):
+            v = inp[key]
+            if isinstance(v, dict) and v["range"] > 16:
+                c = dict(inp); c[key] = {"range": v["range"] // 2, "off": v["off"]}; yield c
+        if len(inp["rs"]) > 1:
+            for i in range(len(inp["rs"])):
+                c = dict(inp); c["rs"] = inp["rs"][:i] + inp["rs"][i + 1:]; yield c
+        return
     for key in ("pos", "neg"):
         xs = inp[key]
         if len(xs) > 1:
